@@ -884,7 +884,10 @@ def consumer_traces(pm: ProtocolModel, while_iters: int = 2) -> list[Trace]:
         return SeqVal("list", items)
 
     def make(it, q, n):
-        return new_item(it, f"{q[:2]}#{n}", sync=True)
+        # what waits in a queue is a synchronous caller's update or a fire-and-forget one (no completion event): the drains must cope with both (mutscan 4: the
+        # `if item.completion_event` of a drain replaced by True - None.set() kills the failure handler half-way through, whoever is queued behind stays asleep)
+        sync = it.decide(f"{q}#{n}@{len(it.events)} kind", 2, ["sync", "fire-and-forget"]) == 0
+        return new_item(it, f"{q[:2]}#{n}", sync=sync)
 
     def h_api(it, recv, args, kwargs, node):
         if "service_client" not in recv.key():
